@@ -4,7 +4,7 @@ import os
 import subprocess
 import sys
 
-from common import VERIF, REPO, BUILD, env_offline, log
+from common import VERIF, REPO, BUILD, env_offline, log, crate_dir
 
 TV = os.path.join(VERIF, "engines", "tv")
 sys.path.insert(0, TV)
@@ -17,7 +17,7 @@ import concrete  # noqa: E402
 
 
 def build_driver():
-    d = os.path.join(TV, "driver")
+    d = crate_dir(os.path.join("engines", "tv", "driver"))
     try:
         src = open(os.path.join(REPO, "Cargo.lock"), "rb").read()
         dst = os.path.join(d, "Cargo.lock")
